@@ -64,7 +64,7 @@ def gen_case(rng, kind):
             # a .cx selection (after the parent's caches were filled) as the frame to pack
             "cx_filter": [float(v) for v in rng.uniform(0.2, 0.8, 2)] if rng.random() < 0.25 else None,
             # the same frame object was packed before with another curve order
-            "np_ints": bool(rng.random() < 0.3), "via_mixed_parquet": bool(rng.random() < 0.12),
+            "np_ints": bool(rng.random() < 0.3), "built_sindex": bool(rng.random() < 0.25), "via_mixed_parquet": bool(rng.random() < 0.12),
             # rows travel through pickle with the on-disk shuffle
             "shuffle": [None, None, None, "tasks", "disk"][int(rng.integers(5))],
             "packed_before_p": int(rng.choice([1, 3, 9, 14])) if rng.random() < 0.2 else 0,
@@ -142,6 +142,8 @@ def check_case(ctx, case):
                 ctx.count("packs_of_mixed_parquet_read")
             if len(src) == 0:
                 return
+            if case.get("built_sindex"):
+                ddf = ddf.build_sindex()            # per-partition R-trees exist when the distances are computed
             if case.get("packed_before_p"):
                 ok0, r0, tbx = ctx.guarded(lambda: ddf.pack_partitions(npartitions=2, p=int(case["packed_before_p"])).compute())
                 ctx.count("packs_of_frame_packed_before")
